@@ -11,6 +11,7 @@ package in_toto
 
 import (
 	"encoding/base64"
+	"encoding/json"
 	"strconv"
 )
 
@@ -131,6 +132,10 @@ func vspecAnyMap(m map[string]interface{}) string {
 			out += strconv.Itoa(int(v))
 		case int:
 			out += strconv.Itoa(v)
+		case int64:
+			out += strconv.FormatInt(v, 10)
+		case json.Number:
+			out += string(v)
 		case bool:
 			if v {
 				out += "true"
@@ -260,7 +265,7 @@ func vspecCanonLayout(l Layout) string {
 
 // collection shapes (0 nil, 1 empty, 2 populated) come from a small table of
 // profiles instead of all 3^5 combinations
-var vhShapeProfiles = [][]int{{0, 0, 0, 0, 0}, {1, 1, 1, 1, 1}, {2, 2, 2, 2, 0}, {2, 0, 1, 2, 1}, {0, 2, 2, 1, 0}, {1, 2, 0, 0, 1}}
+var vhShapeProfiles = [][]int{{0, 0, 0, 0, 0}, {1, 1, 1, 1, 1}, {2, 2, 2, 2, 0}, {2, 0, 1, 2, 1}, {0, 2, 2, 1, 0}, {1, 2, 0, 0, 1}, {0, 0, 0, 0, 2}, {2, 1, 2, 2, 2}}
 var vhProfile []int
 var vhShapeIdx int
 
@@ -307,6 +312,9 @@ func vhSymLink(nameLen int) Link {
 	switch vhShape("environment") {
 	case 1:
 		l.Environment = map[string]interface{}{}
+	case 2:
+		// exact integers that float64 cannot hold (must be signed digit for digit, or refused - never rounded)
+		l.Environment = map[string]interface{}{"started_ns": int64(1727863200000000001), "big": json.Number("9007199254740993"), "small": 7}
 	}
 	return l
 }
@@ -557,3 +565,29 @@ func vhC11DSSE(s string) {
 	}
 	vReach("C11.end")
 }
+
+// vh_C15_setpayload: building, signing and reading back a DSSE envelope never crashes, whatever bytes the
+// strings of the metadata contain (command output and file names of hostile links end up there through
+// the summary link of a sublayout, record stop and run).
+// a = {string length, 1: the last character is an arbitrary two-byte UTF-8 character}
+func vh_C15_setpayload(a []int) {
+	s := vBytes("byproduct", a[0])
+	vhASCII(s)
+	if len(a) > 1 && a[1] == 1 {
+		t := vBytes("twobyte", 2)
+		vAssume(vAnd(vAnd(vLeByte(0xc2, t[0]), vLeByte(t[0], 0xdf)), vAnd(vLeByte(0x80, t[1]), vLeByte(t[1], 0xbf))))
+		s += t
+	}
+	l := Link{Type: "link", Name: s, ByProducts: map[string]interface{}{"stdout": s}, Command: []string{s}}
+	e := &Envelope{}
+	err := e.SetPayload(l)
+	vObserve("c15-setpayload", err == nil)
+	if err == nil {
+		_ = e.GetPayload()
+		_ = e.Sign(vhEdKey(0, true))
+		_ = e.VerifySignature(vhEdKey(0, false))
+	}
+	vReach("C15.end")
+}
+
+func init() { vhRegister("vh_C15_setpayload", vh_C15_setpayload) }
